@@ -15,8 +15,10 @@ What is modelled, as written in the code (not as it should be):
 * `runBase`               — `_reparse_raw_base` as a machine with an explicit order of effects; the parser is a parameter
 * `retEnd`                — the returned `(end_ln, end_col)`
 * `Zip`, `reparseTree`    — the tree effect: offset of everything outside the region with `tail = head = True`,
-                            graft of the parsed sub-tree, first-line byte delta, header-only variant, `_set_end_pos`
-                            for `elif`
+                            graft of the parsed sub-tree, first-line byte delta, header-only variant, `_tail_parent` /
+                            `_set_end_pos(new, old)` for the ancestors that ended with the node
+* `guardOk`, `runRaw`     — the guard (one node, same kind, same place, nothing after it) and the fallback to the
+                            whole-source reparse of the repaired `_reparse_raw`
 No imports: this file is linked into the native driver.
 -/
 namespace Pfst.Raw
@@ -340,40 +342,94 @@ def setEnd (p : Option Pos) (e : Option (Int × Int)) : Option Pos :=
 
 def Node.endPt (n : Node) : Option (Int × Int) := n.pos.map (fun p => (p.elno, p.ecol))
 
-/-- `_set_end_pos(end)` called on the focus: walk up while the node has no next sibling. -/
-def setEndPos (e : Option (Int × Int)) : List Frame → List Frame
+/-- the end the code reads off a node: its own, or for a node without a location (`match_case`) the end of its last
+child (`a.body[-1]`) -/
+def Node.endPtD (n : Node) : Option (Int × Int) :=
+  match n.pos with
+  | some p => some (p.elno, p.ecol)
+  | none => (n.kids.getLast?).bind Node.endPt
+
+/-- the start the guard compares: own start, or for a node without a location the start of its first child -/
+def Node.startPtD (n : Node) : Option (Int × Int) :=
+  match n.pos with
+  | some p => some (p.lno, p.col)
+  | none => (n.kids.head?).bind (fun k => k.pos.map (fun p => (p.lno, p.col)))
+
+/-- `_tail_parent` (evaluated on the OLD tree, before anything is touched): index of the first ancestor with a location,
+provided the node is the last node of every ancestor up to it and that ancestor ends exactly where the node ends (not
+past a trailing semicolon). -/
+def tailIdx (e : Option (Int × Int)) : List Frame → Nat → Option Nat
+  | [], _ => none
+  | f :: fs, i =>
+    if !f.right.isEmpty then none
+    else match f.pos with
+      | some p => if some (p.elno, p.ecol) == e then some i else none
+      | none => tailIdx e fs (i + 1)
+
+/-- `_set_end_pos(new, old)` called on an ancestor (the head of the list): set the end as long as the node ends at `old`
+and is the last child of its parent. -/
+def setEndPosFrom (new old : Int × Int) : List Frame → List Frame
   | [] => []
-  | f :: fs => if f.right.isEmpty then { f with pos := setEnd f.pos e } :: setEndPos e fs else f :: fs
+  | f :: fs =>
+    let stop := match f.pos with | some p => (p.elno, p.ecol) != old | none => false
+    if stop then f :: fs
+    else
+      let f' : Frame := { f with pos := setEnd f.pos (some new) }
+      if (fs.head?.map (fun g => g.right.isEmpty)).getD false then f' :: setEndPosFrom new old fs else f' :: fs
 
 structure TreeMode where
   setAst : Bool            -- whole statement grafted (else header-only)
-  isElif : Bool
   firstLineno : Nat
   delta : Int
   nOldHead : Nat           -- header-only: number of leading non-block children of the old node
   nNewHead : Nat           -- header-only: number of leading non-block children of the parsed node
   noEndCopy : Bool         -- header-only: the node is a `match_case` (no position to copy)
+  follows : Bool           -- something other than the synthetic `finally: pass` follows the parsed node in the wrapper:
+                           -- a node at any level, or text other than a comment / continuation on its last line (`;`)
+  sameParentKind : Bool := true  -- for an `ExceptHandler`: the wrapper's `Try`/`TryStar` is the kind of the real parent
+  sameStart : Option Bool := none  -- only for nodes without an AST location (`match_case`): whether the `case` keyword is
+                                   -- where it was (found with the tokenizer by the harness); `none` = compare positions
 deriving Repr, Inhabited
+
+/-- The guard of the repaired `_reparse_raw_base` (before anything is touched): the wrapper must contain exactly one node
+of the same kind at the same place and nothing after it; otherwise the change reached past the node and the whole source
+is reparsed instead. `sub` is the parsed node BEFORE the first-line delta is applied in the code, the comparison is on
+character columns there; here it is made on byte columns after the delta (same line prefix). -/
+def guardOk (m : TreeMode) (old sub : Node) : Bool :=
+  !m.follows && m.sameParentKind && sub.kind == old.kind && (match m.sameStart with | some b => b | none => sub.startPtD == old.startPtD)
 
 /-- The tree effect of a successful statement-level reparse: `sub` is the node found in the parsed wrapper by the path.
 * `set_ast`: everything outside the old node is offset with `tail = head = True` (`exclude = self`); the old node is
-  replaced by `sub` after the first-line delta; for an `elif` region `_set_end_pos` re-propagates the new end.
+  replaced by `sub` after the first-line delta; ancestors that ended exactly with the old node (`_tail_parent`) get the
+  end of the new node (`_set_end_pos(new, old)`).
 * header-only: everything including the old node is offset; the parsed header replaces the old header, the old block
   children are kept, the end position is copied from the (offset) old node. -/
 def reparseTree (o : Off) (m : TreeMode) (z : Zip) (sub : Node) : Zip :=
   let ctx := z.ctx.map (mapFrame (movePos o))
   let sub := applyDelta m.firstLineno m.delta sub
   if m.setAst then
-    let ctx := if m.isElif then setEndPos sub.endPt ctx else ctx
+    let ctx :=
+      match tailIdx z.focus.endPtD z.ctx 0, sub.endPtD with
+      | some i, some new =>
+        match ((ctx.drop i).head?).bind (fun f => f.pos) with
+        | some p => ctx.take i ++ setEndPosFrom new (p.elno, p.ecol) (ctx.drop i)
+        | none => ctx
+      | _, _ => ctx
     { ctx, focus := sub }
   else
     let old := mapNode (movePos o) z.focus
     let pos := if m.noEndCopy then sub.pos else setEnd sub.pos old.endPt
     { ctx, focus := .mk sub.kind pos (sub.kids.take m.nNewHead ++ old.kids.drop m.nOldHead) }
 
-/-- F6 repair candidate (NOT in the code): re-propagate the end of the grafted node always, as is done for `elif`. -/
-def reparseTreeFixed (o : Off) (m : TreeMode) (z : Zip) (sub : Node) : Zip :=
-  reparseTree o { m with isElif := m.isElif || m.setAst } z sub
+/-- `_reparse_raw` after the repair: the incremental attempt (`_reparse_raw_stmtlike`) is used only if the wrapper parses,
+the node is found and the guard holds; in every other case NOTHING has been touched yet and the whole source is spliced
+and parsed with the root's own mode (`parseFull`, no retry in another mode for a module root): that decides. -/
+def runRaw {T W : Type} (parse : Lines → Option W) (guard : W → Bool) (fix : T → W → T) (parseFull : Lines → Option T)
+    (st : St T) (copyLines new : Lines) (r : Rect) : Machine T :=
+  let whole := runBase parseFull (fun _ t => t) st st.lines new r
+  match parse (putSrc copyLines new r) with
+  | some w => if guard w then runBase parse fix st copyLines new r else whole
+  | none => whole
 
 mutual
 /-- preorder (kind, position) -/
